@@ -51,6 +51,8 @@ func init() {
 		"(runtime.errorString).RuntimeError": extNop,
 		"runtime.Gosched":                    func(fr *frame, a []value) value { fr.i.yield(); return nil },
 		"runtime.GC":                         extNop,
+		"runtime/debug.Stack":                func(fr *frame, a []value) value { return strBytes("<stack>") },
+		"runtime/debug.PrintStack":           extNop,
 		"runtime.KeepAlive":                  extNop,
 		"runtime.SetFinalizer":               extNop,
 		"runtime.GOMAXPROCS":                 func(fr *frame, a []value) value { return int(1) },
